@@ -16,6 +16,8 @@ mod explore;
 mod checks;
 mod c30;
 mod conformance;
+#[cfg(feature = "sr")]
+mod sr;
 
 fn main() {
     let args = engine::parse_args();
@@ -42,6 +44,8 @@ fn main() {
             println!("{}", serde_json::to_string_pretty(&obs).unwrap());
             0
         }
+        #[cfg(feature = "sr")]
+        "sr-crosscheck" => sr::crosscheck(&args),
         "dump-mirror-traces" => conformance::dump(&args),
         "mirror-selftest" => conformance::selftest(),
         "C27" | "C28" | "C29" => checks::run(&args),
